@@ -58,4 +58,14 @@ var Families = []Family{
 	{"must-field-chain", func(n int) string { return rep("+a:b -c:d ", n) + "e" }},
 	{"fielded-range-or-chain", func(n int) string { return "f:[1 TO 2]" + rep(" OR f:{* TO 3.5}", n) }},
 	{"big-numbers", func(n int) string { return "a:(1" + rep(" OR 18446744073709551616", n) + ")" }},
+	// multi-byte text in front of each kind of lexical error (byte offsets run ahead of rune counts)
+	{"cjk-then-bad-char", func(n int) string { return "\u30bf\u30a4\u30c8\u30eb:" + rep("\u6f22", n) + "\u3001\u5927" }},
+	{"accented-then-bad-char", func(n int) string { return rep("\u00e9", n) + " %" }},
+	{"cyrillic-unterminated-quote", func(n int) string { return rep("\u044f", n) + ":\"\u041c\u043e\u0441\u043a\u0432\u0430" }},
+	{"emoji-unterminated-regexp", func(n int) string { return rep("\U0001F600", n) + " /ab" }},
+	{"cjk-clauses-then-bad-end", func(n int) string { return rep("\u540d:\u6f22 ", n) + "!" }},
+	// deep redundant grouping around an operand, a field value and a whole query
+	{"parens-around-field-value", func(n int) string { return "f:" + rep("(", n) + "v" + rep(")", n) }},
+	{"parens-around-operand", func(n int) string { return "a AND NOT " + rep("(", n) + "b:c" + rep(")", n) + " OR d" }},
+	{"parens-around-suffixed", func(n int) string { return rep("(", n) + "a" + rep(")", n) + "~2 OR b" }},
 }
